@@ -204,7 +204,7 @@ def native_C04(tier, seed):
             # (bounds and inputs exactly representable in float32, so that the comparison below is exact in every dtype)
             elo, ehi = np.array([0.0, -2.0]), np.array([8.0, 2.0])
             te = PeriodicTransform(lower=A(elo), upper=A(ehi), xp=xp, dtype=dt)
-            edge = np.array([elo, ehi, ehi + (ehi - elo), elo - (ehi - elo), 0.5 * (elo + ehi)])
+            edge = np.array([elo, ehi, ehi + (ehi - elo), elo - (ehi - elo), 0.5 * (elo + ehi), elo - 0.25 * (ehi - elo), ehi + 0.25 * (ehi - elo), elo - 2.75 * (ehi - elo)])
             for meth in ("forward", "inverse"):
                 ye = N(getattr(te, meth)(A(edge))[0])
                 cases += 1
@@ -273,6 +273,33 @@ def native_C04(tier, seed):
     cases += 1
     if abs(nd - float(lj[0])) > 1e-6:
         bad("C04-affine-refit", "affine_deriv", f"after a second fit the log-Jacobian {float(lj[0])} is not that of the current map ({nd})", {"class": "AffineTransform", "sequence": "fit, fit"})
+    # affine whitening of columns measured in tiny (and huge) units, in both float widths: the round trip and the log-Jacobian are relative to the scale
+    for nsname, xp, dts in namespaces():
+        for dtn, dt in dts.items():
+            for scales in ((1e-7, 1e-6, 1e-5), (1.0, 1e3, 1e-3)):
+                cases += 1
+                sc = np.asarray(scales)
+                Xs = rng.normal(0.0, 1.0, size=(200, 3)) * sc + 3.0 * sc
+                try:
+                    ta = AffineTransform(xp=xp, dtype=dt)
+                    Xa = xp.asarray(Xs.astype(dtn), dtype=dt)
+                    ta.fit(Xa)
+                    ya, lja = ta.forward(Xa)
+                    xb, ljb = ta.inverse(ya)
+                except Exception as e:  # noqa: BLE001
+                    bad(f"C04-affine-scale-raise-{nsname}-{dtn}-{scales[0]}", "affine_roundtrip", f"{type(e).__name__}: {e}", {"namespace": nsname, "dtype": dtn, "scales": list(scales)})
+                    continue
+                rel = np.abs(np.asarray(xb, dtype=float) - Xs.astype(dtn).astype(float)) / sc
+                tolr = 5e-3 if dtn == "float32" else 1e-9
+                inp = {"class": "AffineTransform", "namespace": nsname, "dtype": dtn, "column_scales": list(scales)}
+                if rel.max() > tolr:
+                    bad(f"C04-affine-scale-roundtrip-{nsname}-{dtn}-{scales[0]}", "affine_roundtrip", f"inverse(forward(x)) differs from x by {rel.max():.3g} column scales", inp)
+                # the scale the transform actually divides by (numpy and torch use different estimators of the standard deviation): recovered from the map itself
+                y2 = np.asarray(ta.forward(xp.asarray((Xs[:2] + sc).astype(dtn), dtype=dt))[0], dtype=float)
+                used = sc / np.maximum(np.abs(y2[0] - np.asarray(ya, dtype=float)[0]), 1e-300)
+                true_lj = -np.log(used).sum()
+                if abs(float(np.asarray(lja, dtype=float)[0]) - true_lj) > (5e-2 if dtn == "float32" else 1e-6) or abs(float(np.asarray(lja, dtype=float)[0]) + float(np.asarray(ljb, dtype=float)[0])) > (5e-2 if dtn == "float32" else 1e-6):
+                    bad(f"C04-affine-scale-lj-{nsname}-{dtn}-{scales[0]}", "affine_deriv", f"log-Jacobian {float(np.asarray(lja, dtype=float)[0])} vs -sum(log scale of the map) = {true_lj}", inp)
     return {"what": "real transform classes: round trips down to a 1e-3 margin, inverse/forward log-Jacobian negation, numeric derivative vs reported log-Jacobian, wrap range and congruence, fit == forward, all 16 composite configurations; numpy/torch/jax x float32/float64; bounds over 9 orders of magnitude",
             "bound": f"{cases} configurations", "cases": cases, "failures": fails}
 
@@ -918,5 +945,25 @@ def native_C03(tier, seed):
             fails.append({"id": "C03-bounds-dict-order", "obligation": "bounds attached to the right columns", "what": f"draws of a in [{x[:,0].min():.3g},{x[:,0].max():.3g}] (declared [0,1]), b in [{x[:,1].min():.3g},{x[:,1].max():.3g}] (declared [10,20])", "input": {"prior_bounds_order": ["b", "a"]}})
     except Exception as e:  # noqa: BLE001
         fails.append({"id": "C03-bounds-dict-order-raise", "obligation": "C03", "what": f"{type(e).__name__}: {e}", "input": {}})
+    # continuous (flow-matching) zuko flow: the density returned with the draws is the density evaluated at the draws, and evaluation is deterministic
+    try:
+        import torch
+        from aspire.flows.torch.flows import ZukoFlowMatching
+        for dims in (1, 2):
+            cases += 1
+            fm = ZukoFlowMatching(dims=dims, seed=seed)
+            xs, lqs = fm.sample_and_log_prob(16)
+            lp1 = np.asarray(torch.as_tensor(fm.log_prob(xs)).detach(), dtype=float)
+            lp2 = np.asarray(torch.as_tensor(fm.log_prob(xs)).detach(), dtype=float)
+            lqn = np.asarray(torch.as_tensor(lqs).detach(), dtype=float)
+            inp = {"backend": "zuko flow matching", "dims": dims, "seed": seed}
+            if np.abs(lqn - lp1).max() > 5e-3:
+                fails.append({"id": f"C03-agree-flowmatching-{dims}", "obligation": "the log-density returned with the draws equals log_prob",
+                              "what": f"flow matching: max |log_q - log_prob(x)| = {np.abs(lqn - lp1).max():.3g}", "input": inp})
+            if not np.array_equal(lp1, lp2):
+                fails.append({"id": f"C03-deterministic-flowmatching-{dims}", "obligation": "log_prob is a function of x",
+                              "what": f"flow matching: two evaluations of log_prob at the same points differ by {np.abs(lp1 - lp2).max():.3g}", "input": inp})
+    except ImportError:
+        pass
     return {"what": "real zuko (quick) and flowjax (thorough) flows x {logit, probit, no bounded transform} x float32/float64: pointwise agreement of the log-density returned with draws and log_prob at those draws (outside a 1e-3 margin), draws inside the bounds, 2-D quadrature of exp(log_prob) over the box, untrained / after a 2-epoch fit / after a refit on data with another spread, save/load; bounds given in another order than the parameters",
             "bound": f"{cases} flow states", "cases": cases, "failures": fails}
